@@ -200,6 +200,9 @@ class Interp:
                 v = self.materialize(st, v); self.store(st, frame, place[1], v)
             if isinstance(v, Adt) and (('Box' in v.ty) or ('Pin' in v.ty)) and (None, 0) in v.fields:
                 v = v.fields[(None, 0)]
+            if isinstance(v, Obj) and v.kind in ('str', 'alloc', 'path'):
+                # a `&str` / `&[u8]` / `&Path` constant is represented by the pointee itself: re-borrowing it (`&(*c)`) points at a cell holding it
+                return st.alloc(v), []
             if not isinstance(v, Ref): raise Stuck(f'deref of non-ref {v!r} in {frame.func.name}')
             return v.cid, list(v.path)
         if k == 'field':
